@@ -11,8 +11,8 @@ namespace ScVerif.C20.EnterLeave
 
 abbrev ECall := Gau.Call Event Unit
 
-def eventCall (ev : Event) : ECall := ⟨false, fun _ => none, fun cur _ => create cur ev, false⟩
-def resetTotalsCall : ECall := ⟨false, fun _ => none, fun cur _ => resetTotals cur, false⟩
+def eventCall (ev : Event) : ECall := ⟨false, fun _ => none, fun cur _ => create cur ev, false, false⟩
+def resetTotalsCall : ECall := ⟨false, fun _ => none, fun cur _ => resetTotals cur, false, false⟩
 
 def opCall : Op → ECall
   | .event ev => eventCall ev
@@ -22,7 +22,7 @@ def opCall : Op → ECall
 the getter before entering `Set` (the transaction's own read is ignored).  Used only to show that the
 linearization theorem is not vacuous about where the value is read (`C20_enterleave_conc_snapshot_variant_fails`);
 on the real code the harness parks threads right after any `Value.Get` (yield point `value.get`). -/
-def snapshotEventCall (snap ev : Event) : ECall := ⟨false, fun _ => none, fun _ _ => create snap ev, false⟩
+def snapshotEventCall (snap ev : Event) : ECall := ⟨false, fun _ => none, fun _ _ => create snap ev, false, false⟩
 
 theorem opCall_apply (o : Op) (cur : Event) (t : Int) : (opCall o).apply cur t = step cur o := by
   cases o <;> rfl
